@@ -707,7 +707,10 @@ impl<'a, P: ProcessRun> PubPoint<'a, P> {
                 )? {
                     Ok(res) => return Ok(res),
                     Err(mut this) => {
+                        // Drop whatever processing the abandoned update
+                        // has already passed on to the processor.
                         this.metrics = Default::default();
+                        this.processor.restart()?;
                         return Ok(this.process_stored(store, metrics)?)
                     }
                 }
